@@ -83,6 +83,11 @@ def check(case, ctx):
     while i < len(hist):
         o = hist[i]
         r = ref.run(o)
+        if "no-coalesce-value-failure" in ctx.flags and "absorbed-under-cache" in r.labels:
+            # (a dictionary inserted by the supply step shows the shape of known finding K6)
+            ctx.exclude("no-coalesce-value-failure")
+            ctx.done(case, False, ["excluded-K6"])
+            return
         fresh = run(build(spec).root.evaluate, o)
         on = run(G.root.evaluate, o)
         where = f"step {i} options={o}"
